@@ -244,8 +244,16 @@ def run(case):
             Fd = Ld.mT if up else Ld
             derived("Chol(A.cholesky(upper), upper).solve", lambda o, up=up: CholLinearOperator(o.cholesky(upper=up), upper=up).solve(Bm), lambda: Ainv @ Bm, {"upper": up})
             derived("Chol(A.cholesky(upper), upper).solve[left]", lambda o, up=up: CholLinearOperator(o.cholesky(upper=up), upper=up).solve(Bm, Lm), lambda: Lm @ Ainv @ Bm, {"upper": up})
-            derived("A.cholesky(upper).solve", lambda o, up=up: o.cholesky(upper=up).solve(Bm), lambda Fd=Fd: torch.linalg.inv(Fd) @ Bm, {"upper": up})
-            derived("A.cholesky(upper).solve[left]", lambda o, up=up: o.cholesky(upper=up).solve(Bm, Lm), lambda Fd=Fd: Lm @ torch.linalg.inv(Fd) @ Bm, {"upper": up})
+            # (a triangular factor is not unique - its diagonal may be negative -: the reference inverts the factor that was returned;
+            # that it factorizes A is C06's business)
+            def fac_solve(o, up=up, left=False):
+                F = o.cholesky(upper=up)
+                Fd_ = F.to_dense().double()
+                ref_ = torch.linalg.inv(Fd_) @ Bm
+                got_ = F.solve(Bm, Lm) if left else F.solve(Bm)
+                return got_.double() - ((Lm @ ref_) if left else ref_)
+            derived("A.cholesky(upper).solve", lambda o, up=up: fac_solve(o, up), lambda: torch.zeros(*opb, n, 2, dtype=torch.float64), {"upper": up})
+            derived("A.cholesky(upper).solve[left]", lambda o, up=up: fac_solve(o, up, True), lambda: torch.zeros(*opb, 2, 2, dtype=torch.float64), {"upper": up})
             derived("Chol(A.cholesky(upper), upper).inv_quad", lambda o, up=up: CholLinearOperator(o.cholesky(upper=up), upper=up).inv_quad(Bm), lambda: (Bm * (Ainv @ Bm)).sum((-2, -1)), {"upper": up})
         derived("A.root_decomposition().solve", lambda o: o.root_decomposition().solve(Bm), lambda: Ainv @ Bm, {})
         derived("A.add_jitter(0).solve", lambda o: o.add_jitter(0.0).solve(Bm), lambda: Ainv @ Bm, {})
